@@ -1,5 +1,6 @@
 """C24 — A memory fault in a coroutine only fails that coroutine (mapping clause and installation order only)."""
 from rules.common import start
+from rules import wave3
 from rules import wave2
 from rules import coro
 
@@ -16,4 +17,6 @@ def run(tier):
     # clauses added for the wave-2 seeds (rules/wave2.py; DESIGN 12a)
     f = fx["core/default"]
     wave2.fault_signals_unblocked_rule(run, f, "C24-FAULT-SIGNALS-UNBLOCKED")
+    # clauses added for the wave-2 seeds (rules/wave2.py; DESIGN 12a)
+    wave3.always_redirects_rule(run, f, "C24-ALWAYS-REDIRECTS")
     return run.finish()
